@@ -75,7 +75,7 @@ def check_gaps(mon, rng, label, order, X):
                           {"W": W, "vi": X[i], "vj": X[j], "alpha_oracle": a_or})
     want = G.gaps(W, a_or, X)
     try:
-        got = np.asarray(get_delta(X.copy(), W, alpha_real), float)
+        got = np.asarray(get_delta(gen.exotic(X, rng) if rng.random() < 0.25 else X.copy(), W, alpha_real), float)
     except Exception as e:
         mon.violation(f"delta:crash:{type(e).__name__}", repr(e), {"W": W, "X": X})
         return want
